@@ -124,6 +124,9 @@ fn stream_pass(b: usize, g: &[u64], only: Option<&[usize]>, seed: u64, acc: &mut
             break;
         }
         while n < target {
+            if n & 0xfff == 0 {
+                beat();
+            }
             h.add_hashed(r.next());
             n += 1;
         }
